@@ -976,6 +976,16 @@ func (fi *fileInstr) callAccesses(call *ast.CallExpr, r *recSet) {
 					t := fi.text(call.Args[0])
 					r.add("w", call, "simrt.W(%d, &("+t+")[0])", t+"[0]")
 				}
+			case "append":
+				// append writes into the spare capacity of its first argument's backing array
+				if len(call.Args) > 1 && fi.pure(call.Args[0]) {
+					if tv, ok := info.Types[call.Args[0]]; ok {
+						if _, isSlice := tv.Type.Underlying().(*types.Slice); isSlice {
+							t := fi.text(call.Args[0])
+							r.add("w", call.Args[0], "simrt.WSpare(%d, "+t+")", "append("+t+")")
+						}
+					}
+				}
 			case "new", "make":
 				for _, a := range call.Args[1:] {
 					fi.reads(a, r)
